@@ -193,15 +193,10 @@ class Model():
 
         if not hasattr(asset, 'name'):
             asset.name = asset.type + ':' + str(asset.id)
-        else:
-            if asset.name in self.asset_names:
-                if allow_duplicate_names:
-                    asset.name = asset.name + ':' + str(asset.id)
-                else:
-                    raise ValueError(
-                        f'Asset name {asset.name} is a duplicate'
-                        ' and we do not allow duplicates.'
-                    )
+        while asset.name in self.asset_names:
+            # Duplicates that are not allowed were refused above. The
+            # derived name can itself be taken, keep going until it is free.
+            asset.name = asset.name + ':' + str(asset.id)
         self.asset_names.add(asset.name)
 
         # Note: set after the name on purpose. Assets are compared by value,
